@@ -172,7 +172,7 @@ def oracle_ds(case, obs):
     if 'exc' in obs:
         return 'distance_to_segment raised %s' % obs['exc']
     d = seg_dist(case['p'], case['a'], case['b'])
-    if abs(obs['d'] - d) > 1e-9 * (1 + abs(d) + max(abs(v) for v in case['p'] + case['a'] + case['b'])):
+    if abs(obs['d'] - d) > 1e-11 * (1 + abs(d) + max(abs(v) for v in case['p'] + case['a'] + case['b'])):      # a few hundred ulps of the coordinates: the foot-point formula is that accurate, a difference of squares is not
         return 'distance_to_segment(%r, segment %r-%r) = %r, the distance to the segment is %r' % (case['p'], case['a'], case['b'], obs['d'], d)
     return None
 
